@@ -48,6 +48,7 @@ type LConv struct {
 	// Exotic adds one more method over legal but rarely used shapes:
 	// uintptr-list ([]uintptr fields) | unsafeptr-list ([]unsafe.Pointer fields) |
 	// self-ref-types (type Tree []Tree, type Dict map[string]Dict) |
+	// generic-unused-param (a converter interface with a type parameter no method mentions) |
 	// update-func-nosource (update method with `goverter:map F | Func`, Func taking no source).
 	Exotic string `json:"exotic,omitempty"`
 	// PkgFirst: the output:package line is written above the output:file line.
@@ -260,6 +261,10 @@ func (s *LSpec) render() map[string]string {
 		convs := byFile[key]
 		dir := convs[0].Dir
 		var b strings.Builder
+		if ld, ok := s.LineDirectives[key]; ok && strings.HasPrefix(ld, "^") {
+			// a directive on the very first line, before the package clause (goyacc style)
+			fmt.Fprintf(&b, "//line %s:1\n", strings.TrimPrefix(ld, "^"))
+		}
 		if fc, ok := s.FileConstraint[key]; ok {
 			fmt.Fprintf(&b, "//go:build %s\n\n", fc)
 		}
@@ -273,7 +278,7 @@ func (s *LSpec) render() map[string]string {
 				break
 			}
 		}
-		if ld, ok := s.LineDirectives[key]; ok {
+		if ld, ok := s.LineDirectives[key]; ok && !strings.HasPrefix(ld, "^") {
 			fmt.Fprintf(&b, "//line %s:10\n", ld)
 		}
 		for _, c := range convs {
@@ -445,6 +450,9 @@ func (s *LSpec) renderConv(b *strings.Builder, c *LConv) {
 	} else if generic {
 		// a generic converter interface: cannot be generated, must be refused with a diagnostic
 		fmt.Fprintf(b, "%s\ntype %s[T any] interface {\n    %s(source Gen%s[T]) GenOut%s[T]\n}\n\ntype Gen%s[T any] struct{ A T }\ntype GenOut%s[T any] struct{ A T }\n\n", strings.Join(lines, "\n"), n, c.method(0), n, n, n, n)
+	} else if c.Kind == "interface" && c.Exotic == "generic-unused-param" {
+		// type parameters that no method mentions: generated like any other interface
+		fmt.Fprintf(b, "%s\ntype %s[T any] interface {\n%s    %s%s\n%s}\n\n", strings.Join(lines, "\n"), n, methodDoc, c.method(0), sig0, m1)
 	} else if c.Kind == "interface" {
 		fmt.Fprintf(b, "%s\ntype %s interface {\n%s    %s%s\n%s}\n\n", strings.Join(lines, "\n"), n, methodDoc, c.method(0), sig0, m1)
 	} else if c.Empty {
@@ -800,6 +808,10 @@ func DrawLayout(rng *rand.Rand, nConv int, opts LayoutOpts) *LSpec {
 				s.Convs[i].Exotic = "update-func-nosource"
 			case 5:
 				s.Convs[i].Exotic = "self-ref-types"
+			case 6:
+				if s.Convs[i].Kind == "interface" && !s.Convs[i].GuardedDecl {
+					s.Convs[i].Exotic = "generic-unused-param"
+				}
 			}
 		}
 	}
@@ -808,7 +820,7 @@ func DrawLayout(rng *rand.Rand, nConv int, opts LayoutOpts) *LSpec {
 	}
 	if opts.Symlinks && rng.IntN(8) == 0 {
 		c := s.Convs[rng.IntN(len(s.Convs))]
-		s.LineDirectives = map[string]string{path.Join(c.Dir, c.File): []string{"../tmpl/src.go.tmpl", "gen-" + c.File, "/abs/elsewhere/x.go"}[rng.IntN(3)]}
+		s.LineDirectives = map[string]string{path.Join(c.Dir, c.File): []string{"../tmpl/src.go.tmpl", "gen-" + c.File, "/abs/elsewhere/x.go", "^tmpl/top.go.tmpl"}[rng.IntN(4)]}
 	}
 	if opts.Symlinks && rng.IntN(5) == 0 {
 		c := s.Convs[rng.IntN(len(s.Convs))]
@@ -917,7 +929,7 @@ func CoverageSpecs() []*LSpec {
 				if pk == 0 && us == 1 {
 					// the same layout with //line directives in both declaring files
 					l := s.Clone()
-					l.LineDirectives = map[string]string{"svc/conv/conv.go": "../../templates/conv.go.tmpl", "a/vars.go": "/nonexistent/abs/vars.tmpl"}
+					l.LineDirectives = map[string]string{"svc/conv/conv.go": "../../templates/conv.go.tmpl", "a/vars.go": "^tmpl/vars.go.tmpl"}
 					out = append(out, l)
 				}
 				if pk == 0 && us == 0 {
@@ -955,6 +967,15 @@ func MergeSpecs() []*LSpec {
 		s.Convs = []LConv{
 			{Dir: "svc/conv", File: "conv.go", Kind: "interface", Name: "Converter", Version: 1, Format: format, OutFile: "@cwd/gen/gen.go"},
 			{Dir: "api/conv", File: "api.go", Kind: "interface", Name: "Converter", Version: 1, Format: format, OutFile: "@cwd/gen/gen.go"},
+		}
+		out = append(out, s)
+	}
+	{
+		// a converter interface with a type parameter that no method mentions
+		s := &LSpec{UserPkgs: map[string]string{}, PkgNames: map[string]string{"svc/conv": "conv", "a": "a"}}
+		s.Convs = []LConv{
+			{Dir: "svc/conv", File: "conv.go", Kind: "interface", Name: "Gu", Version: 1, Exotic: "generic-unused-param"},
+			{Dir: "a", File: "other.go", Kind: "interface", Name: "Gv", Version: 1, Format: "function", Exotic: "generic-unused-param"},
 		}
 		out = append(out, s)
 	}
